@@ -35,7 +35,7 @@ class Universe:
         if isinstance(path, bytes):
             path = os.fsdecode(path)
         if path == self.base or path.startswith(self.base + "/"):
-            return path[len(self.base) + 1:]
+            return path[len(self.base) + 1:].rstrip("/")      # a root given with a trailing separator reports itself with it
         return "!" + path
 
     def tree(self, top="W"):
